@@ -1932,7 +1932,11 @@ func (p *Prover) Prove(g ILin, facts []ILin) bool {
 		}
 	}
 	memo := map[string]bool{}
-	return p.prove(g, all, 0, memo)
+	if p.prove(g, all, 0, memo) {
+		return true
+	}
+	// complete (rational) procedure for small systems
+	return p.lpProve(g, all)
 }
 
 func (p *Prover) prove(g ILin, facts []ILin, depth int, memo map[string]bool) bool {
